@@ -25,7 +25,7 @@
     value position, the [safe_stmts] fragment of DESIGN A.2) and chained comparisons whose last
     operand is lifted; these are covered by the CFG-equality tie and the semantic search only. *)
 From Coq Require Import ZArith List Bool.
-From V.C03 Require Import PyAst PySem Cfg CfgSem Builder Encode Frag Witness ProofsRefute ProofsBase ProofsExpr ProofsBranch ProofsBuild ProofsLoopElse Lift ProofsSim ProofsLiftA ProofsLiftC ProofsLiftE.
+From V.C03 Require Import PyAst PySem Cfg CfgSem Builder Encode Frag Witness ProofsRefute ProofsBase ProofsExpr ProofsBranch ProofsBuild ProofsLoopElse Lift ProofsSim ProofsLiftA ProofsLiftC ProofsLiftE ProofsLBuild.
 Import ListNotations.
 
 (* v1 = (v0 + (v0 := 5)): Python adds the old v0, the CFG computes 5 + 5 *)
@@ -222,5 +222,64 @@ Example lifted_hypotheses_satisfiable :
 Proof.
   split. { reflexivity. } split. { reflexivity. } split. { reflexivity. }
   split. { eexists. eexists. vm_compute. reflexivity. }
+  eexists. eexists. vm_compute. reflexivity.
+Qed.
+
+(* ---------------------------------------------------------------------------------------- *)
+(* Statement level with lifted expressions: CFGBuilder.build preserves the Python meaning on the
+   decidable fragment [lsafe_stmts] (Lift.v): assignments to user names / tuples of names,
+   augmented assignments (not re-binding their own target inside the value), expression
+   statements, return, with [lsafe_val] expressions; if/elif/else and while (no else) with
+   [lsafe_cond] conditions; break, continue, pass; nested arbitrarily; no %tmp in the source.
+   The CFG ends with Python's returned value, Python's call trace and Python's values of all
+   user variables (the CFG store additionally holds the builder's temporaries). *)
+Theorem build_preserves_safe_partial : forall oracle p returns_none g s,
+  lsafe_stmts p = true -> build p returns_none = BOk g s ->
+  forall fuel st v st', exec_py oracle fuel p st = Done (v, st') ->
+  exists fuel' st'', run_cfg oracle g fuel' st = Done (v, st'') /\
+    snd st'' = snd st' /\ forall x, fst st'' (VU x) = fst st' (VU x).
+Proof.
+  intros oracle p rn g s F B fuel st v st' X.
+  destruct (build_preserves_lsafe oracle p rn g s F B fuel st v st' X) as (f'&st''&R&(T&U)).
+  exists f', st''. auto.
+Qed.
+Print Assumptions build_preserves_safe_partial.
+
+Theorem build_preserves_safe_partial_unique : forall oracle p returns_none g s,
+  lsafe_stmts p = true -> build p returns_none = BOk g s ->
+  forall fuel st v st', exec_py oracle fuel p st = Done (v, st') ->
+  forall fuel' r, run_cfg oracle g fuel' st = Done r ->
+    fst r = v /\ snd (snd r) = snd st' /\ forall x, fst (snd r) (VU x) = fst st' (VU x).
+Proof.
+  intros oracle p rn g s F B fuel st v st' X fuel' r R.
+  destruct (build_preserves_lsafe oracle p rn g s F B fuel st v st' X) as (f2&st''&R2&(T&U)).
+  unfold run_cfg in *. assert (r = (v, st'')) by (eapply run_done_unique; eauto). subst. simpl. auto.
+Qed.
+Print Assumptions build_preserves_safe_partial_unique.
+
+(* satisfiable on:
+     while (v0 < 3) and ((v4 := f0(v0)) != 1):
+         v1 = (v0 if v3 else f2(v1)) + v2
+         v0 += (1 if (v1 < 0 or v0 < v1 < 9) else 2)
+         if (v2 := v0 * 2) > 4 and not v3:
+             break
+     return (v0, v1, (v2 == 4) or (v1 != 0))                                        *)
+Definition ex_lprog : stmts :=
+  SCons (SWhile (EBool BoAnd (ECmp (v 0) (CLast CLt (i 3)))
+                             (ECmp (EWalrus 4 (ECall 0 (ECons (v 0) ENil))) (CLast CNe (i 1))))
+     (SCons (SAssign (TName (VU 1)) (EBin BAdd (EIf (v 3) (v 0) (ECall 2 (ECons (v 1) ENil))) (v 2)))
+     (SCons (SAug 0 BAdd (EIf (EBool BoOr (ECmp (v 1) (CLast CLt (i 0))) (ECmp (v 0) (CMore CLt (v 1) (CLast CLt (i 9)))))
+                              (i 1) (i 2)))
+     (one (SIf (EBool BoAnd (ECmp (EWalrus 2 (EBin BMul (v 0) (i 2))) (CLast CGt (i 4))) (EUnary UNot (v 3)))
+               (one SBreak) SNil)))) SNil)
+  (one (SReturn (Some (ETuple (ECons (v 0) (ECons (v 1)
+        (ECons (EBool BoOr (ECmp (v 2) (CLast CEq (i 4))) (ECmp (v 1) (CLast CNe (i 0)))) ENil))))))).
+Example lbuild_hypotheses_satisfiable :
+  lsafe_stmts ex_lprog = true /\ frag_stmts ex_lprog = false /\
+  (exists g s, build ex_lprog false = BOk g s /\ bs_tmp s = 3) /\
+  (exists v st', exec_py test_oracle 40 ex_lprog st0 = Done (v, st')).
+Proof.
+  split. { reflexivity. } split. { reflexivity. }
+  split. { eexists. eexists. split; vm_compute; reflexivity. }
   eexists. eexists. vm_compute. reflexivity.
 Qed.
